@@ -5,7 +5,7 @@ from .. import filters_direct
 
 def direct(ctx, results):
     r = filters_direct.run_direct(ctx, ctx.n(900, 40000), "C10-direct")
-    return {"violations": [v for v in r["violations"] if v["key"].startswith("C10")], "disagreements": r["disagreements"], "evaluations": r["evaluations"],
+    return {"violations": [v for v in r["violations"] if v["key"].startswith("C10")], "disagreements": r["disagreements"], "evaluations": r["evaluations"], "validated": r["validated"],
             "distinct_nontrivial": r["distinct_nontrivial"], "samples": r["samples"],
             "notes": {"direct_filter_calls": r["evaluations"], "direct_calls_compared_with_model": r["validated"], "direct_distribution": r["distribution"]}}
 
